@@ -315,6 +315,12 @@ namespace options
     template <typename Options, typename Iter>
     bool parser::try_parse_as_option(Options&& options, Iter& it, Iter end)
     {
+        // several short names in one argument, e.g., -ab, can only be toggles
+        if (it->is_short() && it->as_short_list().size() > 1)
+        {
+            return false;
+        }
+
         for (auto& option : options)
         {
             if (option.second->matches(*it))
@@ -352,6 +358,7 @@ namespace options
         // a given user_input might match more than one toggle, e.g., -ab matches a and b.
         // Therefore, we need to keep checking all toggles, even after one match.
         auto match_found = false;
+        std::size_t matched_short_names = 0;
 
         for (auto& option : get_all_toggles())
         {
@@ -359,7 +366,18 @@ namespace options
             {
                 option.second->update_value(in);
                 match_found = true;
+
+                if (in.is_short())
+                {
+                    matched_short_names += in.as_short_list().count(option.second->short_name());
+                }
             }
+        }
+
+        // every single short name in the argument has to belong to a toggle
+        if (match_found && in.is_short() && matched_short_names != in.as_short_list().size())
+        {
+            raise<parsing_error>("Argument '", in.data(), "' could not be parsed.");
         }
 
         return match_found;
